@@ -366,6 +366,8 @@ class World:
                     s.bounds) < self.nb_before_end:
                 self.count(self.probes, 'empty_shells_removed',
                            self.nb_before_end - len(s.bounds))
+            if type(s.bounds[0]).__name__ != 'UnitCube':
+                self.count(self.probes, 'unit_cube_shell_removed')
         self.event(label, ret=bool(ret), nlm=nlm, timeout=timeout)
         self.notify('run_return', **info)
         return ret
@@ -655,7 +657,7 @@ def interesting_batches(timeline):
     return ins, endexp, pend
 
 
-def draw_history(rng, cfg, timeline, profile=None):
+def draw_history(rng, cfg, timeline, profile=None, twin_probes=None):
     """Draw an operation history for a configuration whose fault-free twin
     produced `timeline` (one state signature per completed batch)."""
     profile = profile or {}
@@ -729,5 +731,14 @@ def draw_history(rng, cfg, timeline, profile=None):
                 ACCESSORS, rng.randrange(1, len(ACCESSORS)))])
         if rng.random() < 0.15:
             ops.append(['stall', 0, rng.choice([1.0, 60.0, 3600.0])])
+    if (twin_probes or {}).get('empty_shells_removed') and ckpt and \
+            endexp and rng.random() < 0.8:
+        # shells were renumbered when exploration ended: make sure the
+        # object is thrown away and rebuilt from the file after that point
+        extra = rng.choice([0, 1, 2, 5])
+        if endexp[0] + extra > done:
+            ops.append(['run', endexp[0] + extra - done])
+        ops.append(rng.choice([['stop_resume'], ['stop_resume'],
+                               ['kill', 0, 0, None]]))
     ops.append(['finish'])
     return ops
